@@ -450,6 +450,9 @@ class FatPath:
             date, time, cs = encode_timestamp(dt.datetime.now(tz=fs.tz))
             cluster = next(fs.fat.free())
             fs.fat.mark_end(cluster)
+            # The cluster may have been used before; a directory must start
+            # out as all end-of-directory entries
+            fs.clusters[cluster] = b'\0' * fs.clusters.size
 
             entry = DirectoryEntry(
                 # filename and ext of the entry will be ignored and overwritten
